@@ -47,7 +47,27 @@ def check_algebra(w, rep, an, n, tier):
                 # inverse formula decided by C05.blocks (lemma L2); the direct 6x6 / 9x9 product is the thorough tier
                 continue
             if a in C and b in C:
-                verdict(rep, "C05.inverse", "%s %s: J J^-1 = I" % (an, side), cm.matmul(C[a], C[b]), eye(n), (), W(b), "published inverse Jacobian is not the matrix inverse")
+                inst = "%s %s: J J^-1 = I" % (an, side)
+                # a clamp (fmin / fmax) inside a Jacobian is resolved both ways before the series atoms are closed
+                cases = minmax_cases(cm.vertcat(J[a], J[b]))
+                if cases is None or len(cases) == 1:
+                    verdict(rep, "C05.inverse", inst, cm.matmul(C[a], C[b]), eye(n), (), W(b), "published inverse Jacobian is not the matrix inverse")
+                else:
+                    worst, detail = EQUAL, None
+                    for label, JJ in cases:
+                        Ja, Jb = closed(w, w.blk(JJ, 0, n, 0, n)), closed(w, w.blk(JJ, n, 2 * n, 0, n))
+                        v, d = decide_mat(cm.matmul(Ja, Jb), eye(n))
+                        if v == DIFFERENT:
+                            worst, detail = DIFFERENT, "when %s: %s" % (label, d)
+                            break
+                        if v == UNKNOWN and worst == EQUAL:
+                            worst, detail = UNKNOWN, "when %s: %s" % (label, d)
+                    if worst == EQUAL:
+                        rep.ok("C05.inverse", inst, fact={"cases": len(cases)})
+                    elif worst == DIFFERENT:
+                        rep.fail("C05.inverse", inst, "published inverse Jacobian is not the matrix inverse %s" % detail, where=W(b))
+                    else:
+                        rep.incomplete("C05.inverse", inst, "cannot decide %s" % detail, where=W(b))
         # derivative of exp, J_l = Ad_exp(x) J_r
         okg, G = guarded(w, rep, "C05.dexp", "%s DCM-based group" % an, lambda: dcm_group(w, an))
         if okg:
@@ -227,7 +247,7 @@ def check_kinematic(w, rep):
                 Rdot = MatVal(3, 3)
                 for k, a in enumerate(ra):
                     Rdot = cm.ew(Rdot, cm.ew(mat_diff(Rm, a), rdot.cells[k][0], cm.pmul), cm.padd)
-                verdict(rep, "C05.kin", "SO3Mrp.right_jacobian: R' = R [w]x", Rdot, cm.matmul(Rm, Wh), (), W, "MRP rate does not make the rotation matrix evolve as R [w]x")
+                verdict_by_branches(rep, "C05.kin", "SO3Mrp.right_jacobian: R' = R [w]x", Rdot, cm.matmul(Rm, Wh), (), W, "MRP rate does not make the rotation matrix evolve as R [w]x")
 
 
 def poly_syms_(p):
